@@ -50,13 +50,14 @@ def c13(tier, seed, replay):
         outs = run_workers("export_models.py", [{"models": mods}], env, tmp, timeout=600)
         exported = list(read_ndjson(outs))
         inputs = []
-        nrand = 260 if tier == "quick" else 5000
+        nrand = 700 if tier == "quick" else 12000
         for _ in range(nrand):
-            P = problems.random_problem(r, cap=500)
+            triple = r.random() < 0.5      # nested three-way splits: sensitive to the order of variables / constraints
+            P = problems.random_problem(r, cap=500, flavour="triple" if triple else None)
             mode = r.choice(["solve", "solve", "min", "max"])
             var = r.randrange(len(P["vidx"]))
             for rw in r.sample(rewrites_for(P, r, True), 2):
-                inputs.append(dict(rw, P=P, mode=mode, var=var, src="random"))
+                inputs.append(dict(rw, P=P, mode=mode, var=var, src="random", triple=triple))
         for m in exported:
             P = m["P"]
             obj = OBJECTIVE.get(m["name"])
@@ -104,6 +105,8 @@ def c13(tier, seed, replay):
             # the shipped models keep the default strategy (another one may need an astronomic search)
             cfgQ = ({"ca": r.choice([0, 0, 1]), "vh": r.choice([0, 1, 2]), "dh": r.choice([0, 1, 2, 3])}
                     if x["src"] == "random" else {"ca": 0, "vh": 0, "dh": 0})
+            if x.get("triple") and r.random() < 0.7:
+                cfgQ["dh"] = 3
             varQ = x["perm"][x["var"]] if x["kind"] == "permv" else x["var"]
             items.append({"rid": x["rid"], "runs": [
                 {"P": x["P"], "cfg": {}, "mode": x["mode"], "var": x["var"]},
